@@ -11,8 +11,7 @@
 #endif
 #include "rep.h"
 #include "constants.h"
-int* gp_val; int* gp_idx; int* gp_num;
-int g_k, g_p, v_g, g_in, g_q, v_iq, g_n0, g_s0, g_bsize, v_exp, v_idxa; long long v_cellb; int g_r;
+int g_adj, g_k, g_p, v_g, g_in, g_q, v_iq, g_n0, g_s0, g_bsize, v_exp, v_idxa; long long v_cellb; int g_r;
 #include "sparse_alg_c.h"
 #define MK __CPROVER_uninterpreted_embed(SOPLEX_VECTOR_MARKER)
 #define BIG(v) (ABS(v) > eps)
@@ -24,17 +23,27 @@ int g_k, g_p, v_g, g_in, g_q, v_iq, g_n0, g_s0, g_bsize, v_exp, v_idxa; long lon
 #define ROW_I(i)      REP_ALLB(PAIR_I, i)
 #define P_SUPER(k)    (!((k) < dim) || val[k] == 0 || IIN(idx, *num, k))
 #define P_EXACT(k)    (!((k) < *num) || val[idx[k]] != 0)
-#define INV_W (REP_ALL(P_IDXRANGE) && REP_ALL(ROW_I) && REP_ALL(P_SUPER))
-#define INV_S (INV_W && REP_ALL(P_EXACT))
+/* one contract clause per cell (see sparse_alg_c.h); PRE_W / PRE_S: condition (pre-state) under which INV_W / the exactness
+ * part of INV_S is REQUIRED, POST_W / POST_S: condition under which it is ENSURED */
+#define RQ_RANGE(k) (!(PRE_W) || P_IDXRANGE(k))
+#define RQ_ROW(k)   (!(PRE_W) || ROW_I(k))
+#define RQ_SUPER(k) (!(PRE_W) || P_SUPER(k))
+#define RQ_EXACT(k) (!(PRE_S) || P_EXACT(k))
+#define EN_RANGE(k) (!(POST_W) || P_IDXRANGE(k))
+#define EN_ROW(k)   (!(POST_W) || ROW_I(k))
+#define EN_SUPER(k) (!(POST_W) || P_SUPER(k))
+#define EN_EXACT(k) (!(POST_S) || P_EXACT(k))
+#define REQUIRES_INV REQ_EACH(RQ_RANGE) REQ_EACH(RQ_ROW) REQ_EACH(RQ_SUPER) REQ_EACH(RQ_EXACT)
+#define ENSURES_INV  ENS_EACH(EN_RANGE) ENS_EACH(EN_ROW) ENS_EACH(EN_SUPER) ENS_EACH(EN_EXACT)
 /* the sparse operand b: indices in [0, dim), pairwise different; g_k occurs exactly at position g_p (or nowhere: -1) */
 #define P_BIDX(k)   (!((k) < *bused) || (0 <= IDX(b, k) && IDX(b, k) < dim))
 #define P_BOCC(k)   (!((k) < *bused) || ((IDX(b, k) == g_k) == ((k) == g_p)))
 #define PAIR_B(i, j) (!((i) < (j) && (j) < *bused) || IDX(b, i) != IDX(b, j))
 #define ROW_B(i) REP_ALLB(PAIR_B, i)
-#define B_OK (REP_ALL(P_BIDX) && REP_ALL(ROW_B) && -1 <= g_p && g_p < *bused && REP_ALL(P_BOCC))
+#define REQUIRES_B_OK REQ_EACH(P_BIDX) REQ_EACH(ROW_B) __CPROVER_requires(-1 <= g_p && g_p < *bused) REQ_EACH(P_BOCC)
 #define P_ZERO_OUTSIDE_B(k) (!((k) < dim) || val[k] == 0 || SIN(b, *bused, k))
-#define BG1(k) ((((k) < g_bsize) && BIG(VAL(b, k))) ? 1 : 0)
-#define B_NBIG (BG1(0) + BG1(1) + BG1(2) + BG1(3) + BG1(4) + BG1(5) + BG1(6) + BG1(7))
+#define BG1(k, dummy) ((((k) < g_bsize) && BIG(VAL(b, k))) ? 1 : 0)
+#define B_NBIG CELLS(+, BG1, 0)
 #define ABS_AXIOM (ABS(0) == 0 && eps >= 0)   /* |0| = 0 <= eps: an entry with |x| > eps is not 0 */
 
 void w_ss(int* val, int dim, int* idx, int len, int* num, int* setup, int eps, int op, int a, int xv, long long* b, int bmax, int* bused)
@@ -47,102 +56,167 @@ __CPROVER_requires((!(0 <= g_q && g_q < *num) || v_iq == idx[g_q]) && (!(0 <= g_
 #if OP == 0
 /* setup(): not setup -> tiny entries are zeroed, the index list becomes exactly the nonzero positions, each once (INV_S);
  * already setup -> nothing changes */
-__CPROVER_requires(!*setup || INV_W)
+#define PRE_W (*setup)
+#define PRE_S 0
 #define POST_VAL (g_s0 ? v_g : TRUNC(v_g))
 #define POST_SETUP 1
-#define POST_INV (INV_W && (g_s0 || REP_ALL(P_EXACT)))
+#define POST_W 1
+#define POST_S (!g_s0)
+#define POST_MORE 1
 #elif OP == 1
 /* unSetup(): only the flag changes */
-__CPROVER_requires(1)
+#define PRE_W 0
+#define PRE_S 0
 #define POST_VAL v_g
 #define POST_SETUP 0
-#define POST_INV (*num == g_n0 && (!(0 <= g_q && g_q < g_n0) || idx[g_q] == v_iq))
+#define POST_W 0
+#define POST_S 0
+#define POST_MORE (*num == g_n0 && (!(0 <= g_q && g_q < g_n0) || idx[g_q] == v_iq))
 #elif OP == 2
 /* clear(): the zero vector, setup, empty index list */
-__CPROVER_requires(!*setup || INV_W)
+#define PRE_W (*setup)
+#define PRE_S 0
 #define POST_VAL 0
 #define POST_SETUP 1
-#define POST_INV (*num == 0)
+#define POST_W 1
+#define POST_S 1
+#define POST_MORE (*num == 0)
 #elif OP == 3
 /* setValue(i, x): val[i] = x; a setup vector stays setup (INV_W) */
-__CPROVER_requires(0 <= a && a < dim && (!*setup || INV_W))
+__CPROVER_requires(0 <= a && a < dim)
+#define PRE_W (*setup)
+#define PRE_S 0
 #ifdef NOT_TINY
 /* restricted twin: x is 0, or |x| > eps, or i is already listed (see unit.json: the unrestricted instance FAILS) */
-__CPROVER_requires(!*setup || xv == 0 || BIG(xv) || IIN(idx, *num, a))
+#define EXTRA_REQ (ABS_AXIOM && (!*setup || xv == 0 || BIG(xv) || IIN(idx, *num, a)))
+#else
+#define EXTRA_REQ ABS_AXIOM
 #endif
 #define POST_VAL (g_k == a ? xv : v_g)
 #define POST_SETUP g_s0
-#define POST_INV (g_s0 ? INV_W : (*num == g_n0 && (!(0 <= g_q && g_q < g_n0) || idx[g_q] == v_iq)))
+#define POST_W g_s0
+#define POST_S 0
+/* a setup vector: x == 0 unlists i (the list stays tight); not setup: the list is untouched */
+#define POST_MORE (g_s0 ? (xv != 0 || !IIN(idx, *num, a)) : (*num == g_n0 && (!(0 <= g_q && g_q < g_n0) || idx[g_q] == v_iq)))
 #elif OP == 4
 /* add(i, x): no nonzero with index i exists (asserted by the real code): i is appended to the list, val[i] = x */
-__CPROVER_requires(0 <= a && a < dim && *setup == 1 && INV_W && val[a] == 0 && !IIN(idx, *num, a))
+__CPROVER_requires(0 <= a && a < dim && *setup == 1)
+#define PRE_W 1
+#define PRE_S 0
+#define EXTRA_REQ (val[a] == 0 && !IIN(idx, *num, a))
 #define POST_VAL (g_k == a ? xv : v_g)
 #define POST_SETUP 1
-#define POST_INV (INV_W && *num == g_n0 + 1 && idx[g_n0] == a && (!(0 <= g_q && g_q < g_n0) || idx[g_q] == v_iq))
+#define POST_W 1
+#define POST_S 0
+#define POST_MORE (*num == g_n0 + 1 && idx[g_n0] == a && (!(0 <= g_q && g_q < g_n0) || idx[g_q] == v_iq))
 #elif OP == 5
 /* clearIdx(i): val[i] = 0; in a setup vector i is no longer listed */
-__CPROVER_requires(0 <= a && a < dim && (!*setup || INV_W))
+__CPROVER_requires(0 <= a && a < dim)
+#define PRE_W (*setup)
+#define PRE_S 0
 #define POST_VAL (g_k == a ? 0 : v_g)
 #define POST_SETUP g_s0
-#define POST_INV (g_s0 ? (INV_W && !IIN(idx, *num, a)) : (*num == g_n0 && (!(0 <= g_q && g_q < g_n0) || idx[g_q] == v_iq)))
+#define POST_W g_s0
+#define POST_S 0
+#define POST_MORE (g_s0 ? !IIN(idx, *num, a) : (*num == g_n0 && (!(0 <= g_q && g_q < g_n0) || idx[g_q] == v_iq)))
 #elif OP == 6
 /* clearNum(n): the n-th listed entry is set to 0 and leaves the list */
-__CPROVER_requires(*setup == 1 && INV_W && 0 <= a && a < *num && v_idxa == idx[a])
+__CPROVER_requires(*setup == 1 && 0 <= a && a < *num && v_idxa == idx[a])
+#define PRE_W 1
+#define PRE_S 0
 #define POST_VAL (g_k == v_idxa ? 0 : v_g)
 #define POST_SETUP 1
-#define POST_INV (INV_W && *num == g_n0 - 1 && !IIN(idx, *num, v_idxa))
+#define POST_W 1
+#define POST_S 0
+#define POST_MORE (*num == g_n0 - 1 && !IIN(idx, *num, v_idxa))
 #elif OP == 7
 /* *this *= x (setup asserted by the real code): every listed entry is multiplied once; the unlisted ones are 0 (INV_W),
  * where the dense product is 0 as well (ring axiom 0 * x = 0) */
-__CPROVER_requires(*setup == 1 && INV_W)
+__CPROVER_requires(*setup == 1)
+#define PRE_W 1
+#define PRE_S 0
 #define POST_VAL (g_in ? MUL(v_g, xv) : v_g)
 #define POST_SETUP 1
-#define POST_INV (INV_W && *num == g_n0 && (!(0 <= g_q && g_q < g_n0) || idx[g_q] == v_iq))
+#define POST_W 1
+#define POST_S 0
+#define POST_MORE (*num == g_n0 && (!(0 <= g_q && g_q < g_n0) || idx[g_q] == v_iq))
 #elif OP == 8
 /* multAdd(x, vec): val[g] + x * vec[g], truncated to 0 when the result is tiny (setup case); a setup vector stays EXACTLY
- * setup (INV_S).  Setup case needs: INV_S before (see unit.json for the weaker INV_W), |MARKER| <= eps (see unit.json). */
-__CPROVER_requires(B_OK)
-#ifdef WEAK_INV
-__CPROVER_requires(!*setup || (INV_W && ABS_AXIOM && !BIG(MK)))
-#elif defined(ANY_EPS)
-__CPROVER_requires(!*setup || (INV_S && ABS_AXIOM))
-#else
-__CPROVER_requires(!*setup || (INV_S && ABS_AXIOM && !BIG(MK)))
+ * setup (INV_S).  Setup case needs: INV_S before (see unit.json for the weaker INV_W), |MARKER| <= eps (see unit.json).
+ * Entries that vec does not store keep their value, EXCEPT that listed tiny ones (|v| <= eps) are zeroed when g_adj. */
+#ifdef BCAP
+__CPROVER_requires(*bused <= BCAP)   /* small-operand twin for the quick tier */
 #endif
-__CPROVER_requires(v_exp == (g_p < 0 ? v_g : !*setup ? ADD(v_g, MUL(xv, VAL(b, g_p)))
+REQUIRES_B_OK
+#define PRE_W (*setup)
+#ifdef WEAK_INV
+#define PRE_S 0
+#define EXTRA_REQ (!*setup || (ABS_AXIOM && !BIG(MK)))
+#elif defined(ANY_EPS)
+#define PRE_S (*setup)
+#define EXTRA_REQ (!*setup || ABS_AXIOM)
+#else
+#define PRE_S (*setup)
+#define EXTRA_REQ (!*setup || (ABS_AXIOM && !BIG(MK)))
+#endif
+/* g_adj: some stored entry j of vec hits a non-zero val[j] and the sum is tiny ("adjust" in the code): then the clean-up
+ * loop re-examines EVERY listed entry and also zeroes (and unlists) tiny entries that vec does not touch */
+#define ADJ1(k, dummy) (((k) < *bused) && val[IDX(b, k)] != 0 && !BIG(ADD(val[IDX(b, k)], MUL(xv, VAL(b, k)))))
+__CPROVER_requires(g_adj == ((*setup && CELLS(||, ADJ1, 0)) ? 1 : 0))
+__CPROVER_requires(v_exp == (g_p < 0 ? ((g_adj && !BIG(v_g)) ? 0 : v_g) : !*setup ? ADD(v_g, MUL(xv, VAL(b, g_p)))
                     : v_g != 0 ? TRUNC2(ADD(v_g, MUL(xv, VAL(b, g_p)))) : TRUNC2(MUL(xv, VAL(b, g_p)))))
 #define POST_VAL v_exp
 #define POST_SETUP g_s0
+#define POST_W g_s0
 #ifdef WEAK_INV
-#define POST_INV (!g_s0 || INV_W)
+#define POST_S 0
 #else
-#define POST_INV (!g_s0 || INV_S)
+#define POST_S g_s0
 #endif
+#define POST_MORE 1
 #elif OP == 9
 /* assign(rhs) ("assigns only the elements of rhs"): on a vector that is 0 outside the support of rhs (e.g. after clear())
  * the result is rhs truncated, setup */
-__CPROVER_requires(B_OK && REP_ALL(P_ZERO_OUTSIDE_B))
+REQUIRES_B_OK
+REQ_EACH(P_ZERO_OUTSIDE_B)
+#define PRE_W 0
+#define PRE_S 0
 #define POST_VAL (g_p < 0 ? v_g : TRUNC2(VAL(b, g_p)))
 #define POST_SETUP 1
-#define POST_INV (INV_W && *num == B_NBIG)
+#define POST_W 1
+#define POST_S 0
+#define POST_MORE (*num == B_NBIG)
 #elif OP == 10
 /* *this = rhs (sparse): clear() + assign(): the dense view of rhs, truncated; setup */
-__CPROVER_requires(B_OK && (!*setup || INV_W))
+REQUIRES_B_OK
+#define PRE_W (*setup)
+#define PRE_S 0
 #define POST_VAL (g_p < 0 ? 0 : TRUNC2(VAL(b, g_p)))
 #define POST_SETUP 1
-#define POST_INV (INV_W && *num == B_NBIG)
+#define POST_W 1
+#define POST_S 0
+#define POST_MORE (*num == B_NBIG)
 #elif OP == 11
 /* SVectorBase<R>::operator=(const SSVectorBase<S>& sv) (sv setup, max() >= sv.size() asserted): the sparse copy has the
  * dense view of sv */
-__CPROVER_requires(*setup == 1 && INV_S && bmax >= *num)
+__CPROVER_requires(*setup == 1 && bmax >= *num)
+#define PRE_W 1
+#define PRE_S 1
 #define POST_VAL v_g
 #define POST_SETUP 1
-#define POST_INV (SDENSE(b, *bused, g_k) == v_g && *bused == g_n0 && *num == g_n0)
+#define POST_W 0
+#define POST_S 0
+#define POST_MORE (SDENSE(b, *bused, g_k) == v_g && *bused == g_n0 && *num == g_n0)
 #endif
-__CPROVER_assigns(gp_val, gp_idx, gp_num, *num, *setup, *bused, __CPROVER_object_whole(val), __CPROVER_object_whole(idx), __CPROVER_object_whole(b))
+REQUIRES_INV
+#ifdef EXTRA_REQ
+__CPROVER_requires(EXTRA_REQ)
+#endif
+__CPROVER_assigns(*num, *setup, *bused, __CPROVER_object_whole(val), __CPROVER_object_whole(idx), __CPROVER_object_whole(b))
 __CPROVER_ensures(val[g_k] == POST_VAL)
 __CPROVER_ensures(*setup == POST_SETUP && 0 <= *num && *num <= len)
-__CPROVER_ensures(POST_INV)
+__CPROVER_ensures(POST_MORE)
+ENSURES_INV
 #if OP != 11
 __CPROVER_ensures(*bused == g_bsize && (!(0 <= g_r && g_r < g_bsize) || b[g_r] == v_cellb))
 #endif
@@ -150,7 +224,7 @@ __CPROVER_ensures(*bused == g_bsize && (!(0 <= g_r && g_r < g_bsize) || b[g_r] =
 void h_ss(void)
 {
    int* val; int dim; int* idx; int len; int* num; int* setup; int eps, op, a, xv; long long* b; int bmax; int* bused;
-   g_k = nondet_int(); g_p = nondet_int(); v_g = nondet_int(); g_in = nondet_int(); g_q = nondet_int(); v_iq = nondet_int();
+   g_adj = nondet_int(); g_k = nondet_int(); g_p = nondet_int(); v_g = nondet_int(); g_in = nondet_int(); g_q = nondet_int(); v_iq = nondet_int();
    g_n0 = nondet_int(); g_s0 = nondet_int(); g_bsize = nondet_int(); v_exp = nondet_int(); v_idxa = nondet_int();
    v_cellb = nondet_ll(); g_r = nondet_int();
    w_ss(val, dim, idx, len, num, setup, eps, op, a, xv, b, bmax, bused);
